@@ -109,6 +109,14 @@ Theorem C16_attr_nomination_exact : forall m t v,
 Proof. exact nomination_roundtrip_exact. Qed.
 Print Assumptions C16_attr_nomination_exact.
 
+(* ... and ONLY those: for every value the decoded number is the low 24 bits (the attribute has three
+   value bytes), so v and v + 2^24 are indistinguishable on the wire; this is the bound in C20's
+   "nomination values below 2^24 survive the attribute encoding" *)
+Theorem C16_attr_nomination_low_24_bits : forall m t v,
+  contains m t = false -> 0 <= v -> nomination_get t (nomination_add t v m) = AOk (v mod 16777216).
+Proof. exact nomination_roundtrip. Qed.
+Print Assumptions C16_attr_nomination_low_24_bits.
+
 (* ---- sizes: a present attribute of a wrong size is rejected.  _partial: in the pinned code a
         nomination attribute longer than 4 bytes is accepted. *)
 Theorem C16_attr_sizes_partial : forall k m v,
